@@ -410,7 +410,7 @@ func (e *Engine) proveLemmas(run *Run, prop string) {
 			continue
 		}
 		v := &Verifier{e: e, counters: map[string]int{}, key: "lemma"}
-		st := &State{e: e, mem: map[Kind]*Term{}, maps: map[string]*Term{}, clos: map[string]*closureVal{}, held: map[string]bool{}, nonnil: map[string]bool{}}
+		st := &State{e: e, mem: map[Kind]*Term{}, maps: map[string]*Term{}, clos: map[string]*closureVal{}, held: map[string]*heldLock{}, nonnil: map[string]bool{}}
 		st.next = e.sy.Fresh("next0", SInt)
 		var goal *Term
 		var failMsg string
